@@ -20,6 +20,8 @@
 //!   backend  never answers the SYN (listening socket, backlog 0, accept queue full): client reset while
 //!            connecting (HTTP and TCP), session ended by the timeouts · cluster with no backend at all
 //!            (HTTP 503, TCP close)
+//!   transfer killed: 24 MB pending towards a client that does not read, which resets / leaves (HTTP/1, H2);
+//!            half of a storm's connections have such pending output (evicted with data in the buffers)
 //!   limits   a storm above `max_connections` · the per-(cluster, ip) limit
 //!            raised / lowered / disabled at run time (`SetMaxConnectionsPerIp`)
 //!            · optional eviction on queue full
@@ -127,6 +129,13 @@ fn backend(listener: TcpListener) {
                                     }
                                 }
                             }
+                        }
+                    } else if line.contains(" /big") {
+                        // 24 MB towards a client that may never read them (more than loopback socket buffers absorb)
+                        let body = vec![b'z'; 24 * 1024 * 1024];
+                        let _ = s.set_write_timeout(Some(Duration::from_secs(5)));
+                        if s.write_all(format!("HTTP/1.1 200 OK\r\nContent-Length: {}\r\n\r\n", body.len()).as_bytes()).is_err() || s.write_all(&body).is_err() {
+                            return;
                         }
                     } else if line.contains(" /cut") {
                         let _ = s.write_all(b"HTTP/1.1 200 OK\r\nContent-Length: 100\r\n\r\n0123456789");
@@ -265,6 +274,14 @@ fn tcp(addr: &SocketAddr) -> Option<TcpStream> {
     let _ = c.set_read_timeout(Some(Duration::from_millis(200)));
     let _ = c.set_write_timeout(Some(Duration::from_secs(3)));
     Some(c)
+}
+
+/// a small receive buffer: the peer's data backs up into the proxy
+fn small_rcvbuf(c: &TcpStream) {
+    let v: libc::c_int = 4096;
+    unsafe {
+        libc::setsockopt(std::os::fd::AsRawFd::as_raw_fd(c), libc::SOL_SOCKET, libc::SO_RCVBUF, &v as *const _ as *const libc::c_void, 4);
+    }
 }
 
 fn reset(c: TcpStream) {
@@ -691,7 +708,7 @@ fn main() {
     let mut went_ok_last;
     // the tightest limit that was in force ever since some still-open connection was admitted: the
     // storm only holds connections it opened itself after the last change, so `limit` is it
-    const NKINDS: u64 = 32;
+    const NKINDS: u64 = 36;
     let mut counts = [0usize; NKINDS as usize];
     let t_start = Instant::now();
     // how many times the outcome went as scripted (e.g. the response did arrive): coverage, not an oracle
@@ -1039,12 +1056,57 @@ fn main() {
                     }
                 }
             }
+            32 | 33 => {
+                // the session is killed in the middle of a transfer: 24 MB are on their way to a client that
+                // does not read; it resets (32) or just leaves (33) while the proxy's buffers hold data
+                if let Some(mut c) = tcp(&front) {
+                    small_rcvbuf(&c);
+                    let _ = c.write_all(request("good.test", "/big", false).as_bytes());
+                    std::thread::sleep(Duration::from_millis(250));
+                    went[kind] += 1;
+                    if kind == 32 {
+                        reset(c);
+                    } else {
+                        let mut b = [0u8; 1000];
+                        let _ = c.read(&mut b);
+                        drop(c);
+                    }
+                }
+            }
+            34 => {
+                // the same over TLS (HTTP/2): a stream with 24 MB pending, then the client is gone
+                if let Some(mut s) = h2_open(&fronts) {
+                    let _ = s.write_all(&h2_frame(1, 5, 1, &h2_headers(false, "/big")));
+                    let _ = s.flush();
+                    std::thread::sleep(Duration::from_millis(250));
+                    went[kind] += 1;
+                    let (_conn, sock) = s.into_parts();
+                    reset(sock);
+                }
+            }
+            35 => {
+                // TCP relay killed in the middle of a transfer (the relay's own buffers hold data when dropped)
+                if let Some(mut c) = tcp(&tcp_good) {
+                    small_rcvbuf(&c);
+                    let _ = c.write_all(b"GET /big HTTP/1.1\r\n\r\n");
+                    std::thread::sleep(Duration::from_millis(250));
+                    went[kind] += 1;
+                    if rng.next() % 2 == 0 {
+                        reset(c);
+                    }
+                }
+            }
             21 => {
                 // a storm above max_connections: everybody asks, nobody leaves
                 let n = maxc as usize + 3;
                 let mut conns: Vec<TcpStream> = (0..n).filter_map(|_| tcp(&front)).collect();
-                for c in conns.iter_mut() {
-                    let _ = c.write_all(request("good.test", "/x", false).as_bytes());
+                for (i, c) in conns.iter_mut().enumerate() {
+                    // every other one asks for 24 MB it will not read: sessions with pending output
+                    let path = if i % 2 == 1 { "/big" } else { "/x" };
+                    if i % 2 == 1 {
+                        small_rcvbuf(c);
+                    }
+                    let _ = c.write_all(request("good.test", path, false).as_bytes());
                 }
                 // pass 1: who is answered 200 while all are held open
                 let mut answered = vec![false; conns.len()];
@@ -1107,7 +1169,7 @@ fn main() {
         // sessions of the HTTPS and TCP listeners and WebSocket sessions close through their own paths:
         // look for a slot they left behind before a later session recycles their token
         let probe_host = match kind {
-            8 | 9 | 12 | 13 | 14 | 15 | 16 | 17 | 22 | 24 | 25 | 26 => Some("good.test"),
+            8 | 9 | 12 | 13 | 14 | 15 | 16 | 17 | 22 | 24 | 25 | 26 | 34 | 35 => Some("good.test"),
             4 | 18 => Some("dead.test"),
             27 | 28 | 29 => Some("hang.test"),
             30 | 31 => Some("empty.test"),
